@@ -17,7 +17,7 @@ MANIFEST = dict(
          "lists, repeated HTLC entries included, and that content is within the bounds), filter theorems (only "
          "an explicit Warn rule downgrades).  The model is run against the real validators (through the Validator "
          "trait) and against Channel::sign_counterparty_commitment_tx_phase2 on every run with boundary-crossed "
-         "inputs, and an independent u128 reference predicate monitors every acceptance.  C05_feerate_estimate_is_source / C05_commitment_weight_is_source: the fee helpers ARE the source's - estimate_feerate_per_kw and expected_commitment_tx_weight (util/transaction_utils.rs) are translated on every run by tools/gen_rustfn.py (Gen/TxUtilGen.v) and proved equal to the model's definitions for every u64 fee and non-zero weight, in both build profiles.  C05_commitment_rules_are_source / C05_expiry_rule_is_source / C05_fee_rule_is_source: the commitment rules ARE the source's - SimpleValidator::validate_commitment_tx (whole body), ::validate_expiry, ::validate_fee with ChannelSetup::is_anchors / ::is_zero_fee_htlc and CommitmentInfo2::value_to_parties are translated statement by statement on every run (Gen/CommitmentPolicyGen.v, records generated from the struct declarations, constants read from their files) and proved equal to the model's validate_commitment / validate_expiry / validate_fee on the abstraction of every source-level value, for every policy filter, both build profiles, refusal tags and panics included; C05_source_accept_implies_bounds carries the bounds over to what the translated function accepts.",
+         "inputs, and an independent u128 reference predicate monitors every acceptance.  C05_feerate_estimate_is_source / C05_commitment_weight_is_source: the fee helpers ARE the source's - estimate_feerate_per_kw and expected_commitment_tx_weight (util/transaction_utils.rs) are translated on every run by tools/gen_rustfn.py (Gen/TxUtilGen.v) and proved equal to the model's definitions for every u64 fee and non-zero weight, in both build profiles.  C05_commitment_rules_are_source / C05_expiry_rule_is_source / C05_fee_rule_is_source: the commitment rules ARE the source's - SimpleValidator::validate_commitment_tx (whole body), ::validate_expiry, ::validate_fee with ChannelSetup::is_anchors / ::is_zero_fee_htlc and CommitmentInfo2::value_to_parties are translated statement by statement on every run (Gen/CommitmentPolicyGen.v, records generated from the struct declarations, constants read from their files) and proved equal to the model's validate_commitment / validate_expiry / validate_fee on the abstraction of every source-level value, for every policy filter, both build profiles, refusal tags and panics included; C05_source_accept_implies_bounds carries the bounds over to what the translated function accepts.  C05_counterparty_rules_are_source / C05_holder_rules_are_source: the two entry points validate_counterparty_commitment_tx / validate_holder_commitment_tx (whole bodies: the call of validate_commitment_tx, the revocation window, the retry rules, holder-not-revoked, the closed-channel rule) are translated on every run (Gen/EnforcementRulesGen.v over Gen/EnforcementGen.v) and proved equal, tags and panics included, to the model's validate_counterparty_commitment / validate_holder_commitment with the translated validate_commitment_tx in the place of the call.",
     design="§4 C05",
     note=lib.TB + "Additionally trusted: tools/gen_rustfn.py and the meaning Base/Rust.v gives to the Rust constructs it reads; side conditions of the source theorems (boolean commit_fits): channel_value_sat fits u64, feerate_per_kw fits u32, (number of HTLCs)*172+1124 fits usize; LDK's htlc_timeout/success_tx_weight and the policy filter are parameters of the translation.  Side conditions stated in the theorem: max_feerate_per_kw < u32::MAX (u32::MAX means no maximum "
          "after the repair saturates), and in release builds current_height + delay <= u32::MAX (debug builds panic "
@@ -34,7 +34,8 @@ PINNED = ["C05_accept_implies_bounds", "C05_accept_per_tag", "C05_setup", "C05_c
 # the tie to the source: Gen/TxUtilGen.v and Gen/CommitmentPolicyGen.v are regenerated from /repo right before the build
 SOURCE_PINNED = ["C05_feerate_estimate_is_source", "C05_feerate_estimate_zero_weight_panics",
                  "C05_commitment_weight_is_source", "C05_expiry_rule_is_source", "C05_fee_rule_is_source",
-                 "C05_commitment_rules_are_source", "C05_source_accept_implies_bounds"]
+                 "C05_commitment_rules_are_source", "C05_source_accept_implies_bounds",
+                 "C05_counterparty_rules_are_source", "C05_holder_rules_are_source"]
 
 IMPORTS = ["Model.CommitmentPolicyCheck"]
 
@@ -54,6 +55,9 @@ def run(res):
         stage["at"] = "commitment"
         # Gen/CommitmentPolicyGen.v: validate_expiry, validate_fee, validate_commitment_tx and the helpers they call
         report["commitment_policy"] = gen_rustfn.generate_commitment_policy(lib.REPO)
+        # Gen/EnforcementGen.v + Gen/EnforcementRulesGen.v: the two entry points around validate_commitment_tx
+        report["enforcement"] = gen_rustfn.generate_enforcement(lib.REPO)
+        report["entry_points"] = gen_rustfn.generate_enforcement_rules(lib.REPO)
     stage = {"at": "txutil"}
     try:
         lib.proof_stage(res, "C05.v", "Props.C05", PINNED + SOURCE_PINNED, pre=regen)
@@ -64,8 +68,8 @@ def run(res):
                           {"translator": "tools/gen_rustfn.py", "source": "vls-core/src/util/transaction_utils.rs",
                            "error": str(e), "theorem": "C05_feerate_estimate_is_source"}, has_input=False)
         else:
-            res.violation("the translator cannot read validate_commitment_tx / validate_expiry / validate_fee or a helper, "
-                          "declaration or constant they use (a construct outside its fragment): %s" % e,
+            res.violation("the translator cannot read validate_commitment_tx / validate_expiry / validate_fee, the entry points "
+                          "validate_counterparty_commitment_tx / validate_holder_commitment_tx, or a helper, declaration or constant they use (a construct outside its fragment): %s" % e,
                           {"translator": "tools/gen_rustfn.py",
                            "source": "vls-core/src/policy/simple_validator.rs (+ channel.rs, tx/tx.rs, policy/validator.rs, "
                                      "policy/mod.rs, policy/error.rs, util/transaction_utils.rs)",
